@@ -16,6 +16,7 @@ type lmEntry struct {
 	step  int           // action number during which the entry was appended
 	t     time.Duration // virtual time of that action
 	owner string        // filled in by checkers: who caused it
+	conn  string        // connection whose goroutine held the exclusive lock when it was appended
 	res   mResult       // model result of applying it
 	gen   int           // log generation (bumped by a rewrite)
 }
